@@ -1,6 +1,7 @@
 import Drx.Drv.Util
 import Drx.Snd
 import Drx.SndSpec
+import Drx.SndSteps
 namespace Drx.Drv.Snd
 open Drx Drx.Drv Drx.Snd Drx.SndSpec
 
@@ -89,6 +90,13 @@ def run : List String → Option String
     let b ← bytesOfHex h
     let (a, n) := sndAlloc b
     some (if a ≤ 2 * b.length * n then "true" else "false")
+  | ["steps", h] => do
+    let b ← bytesOfHex h
+    some (toString (sndSteps b).total)
+  | ["stepsv", h] => do
+    let b ← bytesOfHex h
+    let s := sndSteps b
+    some (J.obj [("dataTypes", J.nat s.dataTypes), ("commands", J.nat s.commands), ("run", J.nat s.run), ("swap", J.nat s.swap)]).render
   | ["wavwrite", ch, width, rate, h] => do
     let ch ← parseNat ch; let width ← parseNat width; let rate ← parseNat rate; let b ← bytesOfHex h
     some (rJ J.hex (wavWrite ⟨ch, width, rate⟩ b))
